@@ -376,6 +376,7 @@ func makeSingleDeltaRule(rule ast.Clause, i int) ast.Clause {
 		}
 	}
 	clause := ast.NewClause(rule.Head, newpremises)
+	clause.HeadTime = rule.HeadTime
 	clause.Transform = rule.Transform
 	return clause
 }
